@@ -44,7 +44,7 @@ ASSUMPTIONS = ["mono recordings, sample widths 1, 2, 4, frame rate a positive in
                "times are taken in [0, duration] for the oracle; start <= end for two-time operations"]
 
 WIDTHS = [1, 2, 4]
-RATES = [8, 64, 8000, 16000, 44100]
+RATES = [8, 64, 8000, 16000, 44100, 48000, 7, 3]
 HALF = Fraction(1, 2)
 
 case_json = lambda c: c
